@@ -158,6 +158,17 @@ theorem loop_selection_sites :
        ("newLState", "ctx", "nil"),
        ("newLState", "mainLoop", "mainLoop")] := by decide
 
+/-- **loop_start_sites** (regenerated from state.go / vm.go): an interpreter loop is only ever started through the
+    field `mainLoop` of the state it runs on — the loop selected by SetContext / RemoveContext / NewThread — never
+    by naming `mainLoop` / `mainLoopWithContext` directly: both branches of `LState.callR` (the very first call of a
+    global state, and every later one) and `threadRun`.  This is what `pushLayers` / `settle` transcribe as
+    `sys.loopOf th`, whatever was or was not called on the state before. -/
+theorem loop_start_sites :
+    GLua.Generated.loopStartSites =
+      [("callR", "ls.mainLoop(ls, ls.currentFrame)"),
+       ("callR", "ls.mainLoop(ls, nil)"),
+       ("threadRun", "L.mainLoop(L, nil)")] := by decide
+
 /-- **done_readers** (regenerated): the loop and every blocking channel operation select on `ctx.Done()`
     (channelSend after fix C11-channel-send-ctx). -/
 theorem done_readers :
